@@ -839,6 +839,16 @@ class Effects:
             for q, cs in self.sum.items():
                 if cs.fi.parent is fi and cs.fi.name == f.id:
                     return self._apply_summary(cs.fi, args, kws, s, e)
+        if isinstance(f, ast.Name) and f.id not in env and f.id not in fi.locals and fi.parent is not None:
+            # a free variable of a closure that names one library function in the enclosing function (`draw = partial(np.random.normal, 0)`)
+            up = fi.parent
+            while up is not None:
+                if f.id in up.locals:
+                    ca = self._callable_alias(up, f.id)
+                    if ca is not None:
+                        return self._call_dotted(ca[0], e, args, kws, allr, fi, s, env, fld)
+                    break
+                up = up.parent
         if isinstance(f, ast.Name):
             if f.id in fi.locals:
                 c = self._class_alias(fi, f.id)
